@@ -271,6 +271,73 @@ def boundary_catalogue():
     return out
 
 
+CORNER_LAYOUTS = ["2+5+0", "4+5+0", "4+5+1", "3+7+0", "4+7+0", "4+9+0", "9+10+3", "0+5+0", "0+7+0"]
+_CORNER_CACHE = {}
+
+
+def _corner_value(rng, ch, field):
+    if field == "az" and ch.name in ("M+SC", "M-SC"):
+        return math.copysign(rng.choice([5.0, 25.0, 35.0, 60.0]), ch.az_range[0] + ch.az_range[1])
+    lo, hi = ch.az_range if field == "az" else ch.el_range
+    return rng.choice([lo, hi])
+
+
+def corner_catalogue():
+    """Fixed (fixed seed) catalogue of CORNER layouts: every loudspeaker at a randomly chosen inclusive end of its
+    az and el range - every mirror pair jointly (symmetric family, `#cornerS`) or every loudspeaker independently
+    (asymmetric family, `#cornerA`) - plus the deterministic family `#opp` in which one mirror pair sits at OPPOSITE
+    ends of its ranges and everything else is nominal.  All respect the order / gap rules (`admissible`).
+    Returns (symmetric list, asymmetric list) of (layout id, name, real positions)."""
+    if "v" in _CORNER_CACHE:
+        return _CORNER_CACHE["v"]
+    bs2051 = _mods()[0]
+    rng = random.Random("C05/corner-catalogue/v1")
+    sym, asym = [], []
+    for name in CORNER_LAYOUTS:
+        lay = bs2051.get_layout(name).without_lfe
+        byname = lay.channels_by_name
+        nominal = {c.name: (c.polar_position.azimuth, c.polar_position.elevation) for c in lay.channels}
+        want = 24 if name not in ("0+5+0", "0+7+0") else 8
+        for family, out, symmetric in (("cornerS", sym, True), ("cornerA", asym, False)):
+            seen, tries = set(), 0
+            while len(seen) < want and tries < 40 * want:
+                tries += 1
+                real = {}
+                for ch in lay.channels:
+                    if ch.name in real:
+                        continue
+                    real[ch.name] = (_corner_value(rng, ch, "az"), _corner_value(rng, ch, "el"))
+                    part = ch.name.replace("+", "-") if "+" in ch.name else None
+                    if symmetric and part in byname and part != ch.name:
+                        real[part] = (-real[ch.name][0], real[ch.name][1])
+                key = tuple(sorted(real.items()))
+                if key in seen or real == nominal or not admissible(name, real):
+                    continue
+                if not symmetric and all(real.get(n.replace("+", "-"), (None, None)) == (-real[n][0], real[n][1])
+                                         for n in real if "+" in n and n.replace("+", "-") in real and n.replace("+", "-") != n):
+                    continue  # happens to be symmetric: belongs to the other family
+                seen.add(key)
+                out.append(("%s#%s%d" % (name, family, len(seen) - 1), name, real))
+        # one mirror pair at opposite ends, the rest nominal
+        k = 0
+        for ch in lay.channels:
+            part = ch.name.replace("+", "-") if "+" in ch.name else None
+            if part not in byname or part == ch.name:
+                continue
+            pch = byname[part]
+            for (a1, a2) in ((ch.az_range[0], pch.az_range[0]), (ch.az_range[1], pch.az_range[1])):
+                # (+lo with -lo) = near end on one side and far end on the other, since the '-' range is mirrored
+                for (e1, e2) in ((ch.el_range[0], pch.el_range[0]), (ch.el_range[0], pch.el_range[1]), (ch.el_range[1], pch.el_range[0])):
+                    real = dict(nominal)
+                    real[ch.name], real[part] = (a1, e1), (a2, e2)
+                    if (a1, e1) == (-a2, e2) or not admissible(name, real):
+                        continue
+                    asym.append(("%s#opp%d:%s" % (name, k, ch.name), name, real))
+                    k += 1
+    _CORNER_CACHE["v"] = (sym, asym)
+    return sym, asym
+
+
 def boundary_for_run(ctx, n_sampled):
     """The always-run boundary layouts plus `n_sampled` of the others (all of them if n_sampled is None)."""
     cat = boundary_catalogue()
@@ -525,6 +592,75 @@ def c05_predicates(pan, p, cls, kind, hits, counts, tagprefix=None):
     return calls
 
 
+def _segments_cross(p1, p2, p3, p4):
+    """Proper crossing of the 2-d segments p1p2 and p3p4."""
+    def orient(a, b, c):
+        return (b[0] - a[0]) * (c[1] - a[1]) - (b[1] - a[1]) * (c[0] - a[0])
+    d1, d2 = orient(p3, p4, p1), orient(p3, p4, p2)
+    d3, d4 = orient(p1, p2, p3), orient(p1, p2, p4)
+    eps = 1e-9
+    return ((d1 > eps and d2 < -eps) or (d1 < -eps and d2 > eps)) and ((d3 > eps and d4 < -eps) or (d3 < -eps and d4 > eps))
+
+
+def polygon_report(positions, order):
+    """Independent look at a region's vertex order: project the vertices along their centre direction and test
+    (a) that the polygon in the given order has no crossing edges and (b) that the order equals the order by angle
+    around the centre up to rotation / reversal.  Returns None if fine, else a description."""
+    pos = np.asarray(positions, dtype=float)
+    n = len(pos)
+    order = [int(o) for o in order]
+    if sorted(order) != list(range(n)):
+        return {"problem": "order is not a permutation", "order": order}
+    c = unit(np.mean(pos, axis=0))
+    d = pos.dot(c)
+    proj = pos / d[:, None] if np.all(d > 0.05) else pos  # gnomonic where possible: arcs become straight lines
+    h = np.array([0.0, 0.0, 1.0]) if abs(c[2]) < 0.9 else np.array([1.0, 0.0, 0.0])
+    e1 = unit(np.cross(h, c))
+    e2 = np.cross(c, e1)
+    xy = np.stack([proj.dot(e1), proj.dot(e2)], axis=1)
+    xy = xy - xy.mean(axis=0)
+    poly = xy[order]
+    for i in range(n):
+        for j in range(i + 1, n):
+            if j == i + 1 or (i == 0 and j == n - 1):
+                continue
+            if _segments_cross(poly[i], poly[(i + 1) % n], poly[j], poly[(j + 1) % n]):
+                return {"problem": "edges %d-%d and %d-%d of the ordered polygon cross" % (order[i], order[(i + 1) % n], order[j], order[(j + 1) % n]), "order": order}
+    ang = np.arctan2(xy[:, 1], xy[:, 0])
+    srt = sorted(ang)
+    gaps = [b - a for a, b in zip(srt, srt[1:])]
+    if gaps and min(gaps) > 1e-6:  # the angular order is unambiguous
+        mine = [int(i) for i in np.argsort(ang)]
+        k = mine.index(order[0])
+        fwd = mine[k:] + mine[:k]
+        bwd = [fwd[0]] + fwd[1:][::-1]
+        if order != fwd and order != bwd:
+            return {"problem": "order differs from the order by angle around the centre", "order": order, "by_angle": fwd}
+    return None
+
+
+def structural_hits(pan, counts, tagprefix=None):
+    """Every QuadRegion / VirtualNgon of the configured panner must have a simple (non self-intersecting) vertex order."""
+    hits = []
+    for k, r in enumerate(pan.regions):
+        kind = region_kind(r)
+        if kind == "QuadRegion":
+            order = list(r.order)
+        elif kind == "VirtualNgon":
+            order = ngon_order(r)
+        else:
+            continue
+        key = "structure|%s|%s" % (pan.group, kind)
+        counts[key] = counts.get(key, 0) + 1
+        rep = polygon_report(r.positions, order)
+        if rep is not None:
+            hits.append({"what": "region vertex order is not a simple polygon",
+                         "input": dict(pan.spec(), region=k, region_kind=kind, output_channels=[int(c) for c in r.output_channels],
+                                       vertex_positions=np.asarray(r.positions).tolist()),
+                         "detail": rep, "tags": [tagprefix] if tagprefix else []})
+    return hits
+
+
 def _search_task(args):
     """One (layout, budget) unit of C05 search; runs in a worker process."""
     lid, name, real, nominal, seed, budget, fib_n, tagprefix = args
@@ -538,8 +674,13 @@ def _search_task(args):
         return lid, 0, counts, hits, []
     calls = 0
     samples = []
-    for cls, kind, p in direction_stream(pan, rng, budget, fib_n):
-        before = len(hits)
+    hits.extend(structural_hits(pan, counts, tagprefix))
+    if budget == 0:  # structure + loudspeaker / vertex directions only
+        stream = [("loudspeaker", "-", unit(p)) for p in pan.positions]
+        stream += [("vertex", region_kind(r), unit(v)) for r in pan.regions for v in region_vertices(r)]
+    else:
+        stream = direction_stream(pan, rng, budget, fib_n)
+    for cls, kind, p in stream:
         calls += c05_predicates(pan, p, cls, kind, hits, counts, tagprefix)
         if len(samples) < 2 and cls.startswith("edge"):
             samples.append({"layout": lid, "class": cls, "region": kind, "direction": [float(x) for x in p]})
@@ -913,6 +1054,14 @@ class C05(Spec):
             # are violations; the tag only makes them easy to recognise)
             for lid, name, real in boundary_for_run(ctx, 16 if ctx.quick else None):
                 tasks.append((lid, name, real, False, "%s/%d/%s" % (ctx.tier, ctx.seed, lid), max(1500, per // 4), max(100, fib // 4), "boundary-layout:" + lid))
+            # corner layouts: all of them get the structural check + loudspeaker/vertex directions (budget 0), a seeded
+            # sample (all in the thorough tier) gets the full direction search
+            csym, casym = corner_catalogue()
+            full = None if not ctx.quick else {c[0] for c in ctx.rng.sample(csym, min(8, len(csym))) + ctx.rng.sample(casym, min(12, len(casym)))}
+            for fam, tag in ((csym, "boundary-layout:"), (casym, "asymmetric-catalogue:")):
+                for lid, name, real in fam:
+                    b = max(1500, per // 4) if full is None or lid in full else 0
+                    tasks.append((lid, name, real, False, "%s/%d/%s" % (ctx.tier, ctx.seed, lid), b, max(100, fib // 4), tag + lid))
         for lid, calls, counts, hits, samples in run_pool(tasks, _search_task):
             for k, v in counts.items():
                 ctx.count("search|" + k, v)
